@@ -12,7 +12,7 @@ os.environ["RPX_NO_INLINE"] = "1"
 from engine import facts
 from engine.mir import Program
 from engine.inline import fn_sig, fn_print
-fns, adts = {}, {}
+fns, adts, meta_adt = {}, {}, {}
 for cfg in ("default", "nodefault", "quic-only", "metrics-only"):
     fdir, meta = facts.produce(cfg)
     prog = Program(fdir)
@@ -22,5 +22,7 @@ for cfg in ("default", "nodefault", "quic-only", "metrics-only"):
     for c in ("redproxy_rs", "milu"):
         for a in prog.items[c]["adts"]:
             adts[c + "::" + a["path"]] = [[v["name"], [[fl["name"], prog.types[c][fl["ty"]]["s"]] for fl in v["fields"]]] for v in a["variants"]]
-json.dump({"fns": fns, "adts": adts}, open(os.path.join(V, "engine", "tables", "baseline_fns.json"), "w"), indent=0, sort_keys=True)
+            meta_adt[c + "::" + a["path"]] = {"file": a["span"]["f"], "kind": a["kind"],
+                                              "traits": sorted(set(i.get("trait", "") for i in prog.items[c]["impls"] if prog.types[c][i["self_ty"]]["s"] == a["path"]))}
+json.dump({"fns": fns, "adts": adts, "adt_meta": meta_adt}, open(os.path.join(V, "engine", "tables", "baseline_fns.json"), "w"), indent=0, sort_keys=True)
 print("inventory: %d functions, %d types" % (len(fns), len(adts)))
